@@ -11,15 +11,18 @@ from ..report import Ctx
 from .common import INITIALIZER, METAHANDLER, REPR_MUT, REPR_XO, STEP
 
 LEVEL_TEXT = (
-    "Static rules: (R1) may-mutate effect analysis with a freshness lattice from every variation entry point (mutate / "
-    "crossover of the representations and of the list / string refinements, iterate / pre_iterate / post_iterate / apply of "
-    "every step) with the genotype / parent / population parameters as owned roots: no store, del, in-place operation or "
-    "mutating method reaches them directly or through a resolved callee (allow-list with reasons: fitness and phenotype "
-    "memoisation, Genotype.get, evaluators); (R2) relabel_nodes is interpreted (finite model): an already labelled node and "
-    "its subtree are left untouched, and the labelled flag is set whenever metadata is written; (R3) for a genotype class "
-    "with an in-place growing method, offspring gene containers are copied to full depth; (R4) no unguarded subscript read on "
-    "an attribute that holds an auto-vivifying defaultdict (guards include guard clauses and short-circuit operands). "
-    "Decides these for all parents and populations; aliasing through dynamic attribute names is not decided."
+    "Static rules: (R1) may-mutate effect analysis with a freshness lattice from every variation entry point "
+    "(mutate / crossover of the representations and of the list / string refinements, iterate / pre_iterate / "
+    "post_iterate / apply of every step) with the genotype / parent / population parameters as owned roots: no "
+    "store, del, in-place operation or mutating method reaches them directly or through a resolved callee (allow-"
+    "list with reasons: fitness and phenotype memoisation, Genotype.get, evaluators); (R2) relabel_nodes is "
+    "interpreted (finite model): an already labelled node and its subtree are left untouched, and the labelled "
+    "flag is set whenever metadata is written; (R3) for a genotype class with an in-place growing method, "
+    "offspring gene containers are copied to full depth, and no variation operator hands back the parent object "
+    "itself as the offspring on any path (the next in-place growth or cached phenotype would then be shared); "
+    "(R4) no unguarded subscript read on an attribute that holds an auto-vivifying defaultdict (guards include "
+    "guard clauses and short-circuit operands). Decides these for all parents and populations; aliasing through "
+    "dynamic attribute names is not decided."
 )
 
 ALLOW = {
